@@ -25,6 +25,7 @@ def step (_ : Unit) (op impl : String) : Unit × DrvOut :=
     | w :: rest => if w.startsWith "corsdep" then "cors" :: rest else ws
     | [] => ws
   match ws with
+  | ["reset"] => ((), { model := "ok" })
   | "cors" :: origin :: ok :: sch :: host :: _n :: rest =>
     match Hex.decode origin, parsePURL ok sch host, parseAllow rest with
     | some origin, some o, some allow =>
